@@ -68,6 +68,10 @@ func c02Token(tok string, c c03Cfg) string {
 		return a(`extends "..\layouts\qmain.jet"`)
 	case "IMPORT_BADSTR":
 		return a(`import "a\q"`)
+	case "EXTENDS_BROKEN":
+		return a(`extends "lb"`)
+	case "IMPORT_BROKEN":
+		return a(`import "xb"`)
 	case "INCLUDE":
 		return a(`include "i"`)
 	case "RETURN":
@@ -162,6 +166,10 @@ func c02Worker(_ []string) int {
 		l := jet.NewInMemLoader()
 		l.Set("/l.jet", "layout")
 		l.Set("/i.jet", c.LD+" block ib() "+c.RD+"x"+c.LD+" end "+c.RD)
+		// referenced templates with a structural mistake, one of them a level further down
+		l.Set("/lb.jet", c.LD+` extends "lb2" `+c.RD+"x")
+		l.Set("/lb2.jet", "a\n"+c.LD+" if x "+c.RD+"never closed")
+		l.Set("/xb.jet", c.LD+" block xb() "+c.RD+"x"+c.LD+" end "+c.RD+c.LD+" end "+c.RD)
 		opts := []jet.Option{}
 		if name != "A" {
 			opts = append(opts, jet.WithDelims(c.LD, c.RD))
@@ -373,6 +381,9 @@ const (
 
 var c02ErrLine = regexp.MustCompile(`/t\.jet:(\d+)`)
 
+// a syntax error of a referenced template may be reported under that template's name alone
+var c02ErrLineRef = regexp.MustCompile(`/(?:lb|lb2|xb)\.jet:(\d+)`)
+
 func c02Judge(v *c02Vec, src string, a c02Ans) (bool, string, string) {
 	switch {
 	case a.Panic != "":
@@ -389,6 +400,11 @@ func c02Judge(v *c02Vec, src string, a c02Ans) (bool, string, string) {
 	if a.Err != "" {
 		m := c02ErrLine.FindStringSubmatch(a.Err)
 		lines := strings.Count(src, "\n") + 1
+		if m == nil {
+			if m = c02ErrLineRef.FindStringSubmatch(a.Err); m != nil {
+				lines = 2
+			}
+		}
 		if m == nil {
 			return false, "errortext", fmt.Sprintf("error %q does not name the template and a line", a.Err)
 		}
